@@ -422,8 +422,8 @@ func closeDuringCollection(c *rt.C, mem string) {
 			}
 		}
 		time.Sleep(5 * time.Millisecond)
-		close(resume)
 	}
+	close(resume)
 	select {
 	case <-closed:
 	case <-time.After(60 * time.Second):
